@@ -375,6 +375,12 @@ func init() {
 				if len(bodies) > 12 {
 					bodies = bodies[:12]
 				}
+				// fragmented frames of both header versions (the captures have none): what a reused JTMessage has seen before
+				// a plain frame must not show in how the plain frame is decoded
+				for ver := 0; ver < 2; ver++ {
+					bodies = append(bodies, buildFrame(hdrSpec{id: 0x0801, serial: 7, ver: ver, verbyte: 1, frag: 1, total: 3, no: 2, phone: randPhone(r, ver), body: []byte{1, 2, 3}}),
+						buildFrame(hdrSpec{id: 0x0002, serial: 8, ver: ver, verbyte: 1, phone: randPhone(r, ver)}))
+				}
 			case "jt1078.Decode": // one short packet per data type (video I/P/B, audio, transparent, reserved)
 				want := []int{0, 1, 2, 3, 4, 9}
 				for len(want) > 0 {
@@ -420,7 +426,11 @@ func init() {
 				}
 			}
 			sort.Slice(uniq, func(i, j int) bool { return len(uniq[i]) > len(uniq[j]) })
-			if limit := map[bool]int{true: 40, false: 8}[tg.id == 0x0200]; len(uniq) > limit {
+			limit := map[bool]int{true: 40, false: 8}[tg.id == 0x0200]
+			if tg.id == 0 {
+				limit = 16 // frame / packet decoders: few seeds, all wanted (the history test pairs them all)
+			}
+			if len(uniq) > limit {
 				uniq = append(uniq[:limit-2], uniq[len(uniq)-2:]...)
 			}
 			if len(uniq) == 0 {
